@@ -171,6 +171,7 @@ type pathCtx struct {
 	taint       string
 	pureSkip    map[*ssa.Function]int
 	sigs        map[string]*Term // known-finding signatures declared so far on this path
+	uuidSeq     int
 	sigOrd      []string
 	asserts     int
 	atoms       map[string]*atomInfo
